@@ -121,6 +121,31 @@ def fn_seq(case):
     return (len(set(names)) < len(names), tuple(exp), viols, 4)
 
 
+def fn_equal_dups(case):
+    """dependencies that are EQUAL (same definition, distinct objects) or the very same object several times:
+    with dedup disabled nothing is dropped or reordered; with it, one object per name (the earliest)."""
+    from htmltools import HTMLDependency
+    idxs, placement = case
+    pool = [HTMLDependency("a", "1.0", script={"src": "s.js"}), HTMLDependency("a", "1.0", script={"src": "s.js"}),
+            HTMLDependency("b", "2.0", script={"src": "s.js"}), HTMLDependency("b", "2.0", script={"src": "s.js"})]
+    deps = [pool[i] for i in idxs]
+    tree = place(deps, placement)
+    viols = []
+    raw = tree.get_dependencies(dedup=False)
+    if [id(d) for d in raw] != [id(d) for d in deps]:
+        viols.append(("collect:dedup=False:equal-duplicates", "get_dependencies(dedup=False) dropped or reordered equal / "
+                      "repeated dependencies", {"observed": len(raw), "expected": len(deps), "case": idxs}))
+    got = tree.get_dependencies()
+    exp = []
+    for d in deps:
+        if not any(e.name == d.name for e in exp):
+            exp.append(d)
+    if [id(d) for d in got] != [id(d) for d in exp]:
+        viols.append(("resolve:equal-duplicates", "resolution of equal dependencies is not the earliest object per name",
+                      {"case": idxs}))
+    return (len(idxs) >= 2, None, viols, 2)
+
+
 # -------------------------------------------------------- version ordering
 VERS2 = ["0.9", "1", "1.0", "1.2.3.4", "1.2.3.10", "1.2.3", "1.2.10", "1.10", "1.9.9.9.9", "2.0.0.0.1", "2",
          "10.0", "9.99", "1.2.3.4.5", "1.2.3.4.10", "01.2.3.4"]
@@ -179,6 +204,9 @@ def validation_cases():
         cases.append(["bad-item", field, "list-empty-dict"])
         cases.append(["bad-item", field, "empty-str"])
         cases.append(["bad-item", field, "zero"])
+        for how in ("userdict", "mappingproxy", "custom-mapping", "list-userdict-pos1", "list-none-pos1", "list-int",
+                    "tuple-of-bytes", "list-pair-tuple", "list-items-view"):
+            cases.append(["bad-item2", field, how])
         for k in REQ[field]:
             cases.append(["missing-key", field, k, "single"])
             cases.append(["missing-key", field, k, "list-pos0"])
@@ -227,6 +255,36 @@ def fn_validation(case):
                "list-pos1": [good, "a.js"], "list-of-list": [[good]], "empty-dict": {},
                "list-empty-dict": [good, {}], "empty-str": "x", "zero": 0}[how]
         must_reject(**{f: val})
+    elif kind == "bad-item2":
+        # items that look like a definition but are not dicts (the statement: "a non-dict ... item ... is rejected
+        # when the dependency is constructed")
+        import collections
+        import types
+        f, how = case[1], case[2]
+        good = copy.deepcopy(ITEM[f])
+
+        class MyMapping(collections.abc.Mapping):
+            def __init__(self, d):
+                self._d = d
+
+            def __getitem__(self, k):
+                return self._d[k]
+
+            def __iter__(self):
+                return iter(self._d)
+
+            def __len__(self):
+                return len(self._d)
+        val = {"userdict": collections.UserDict(good), "mappingproxy": types.MappingProxyType(good),
+               "custom-mapping": MyMapping(good), "list-userdict-pos1": [good, collections.UserDict(copy.deepcopy(good))],
+               "list-none-pos1": [good, None], "list-int": [42], "tuple-of-bytes": (b"a.js",),
+               "list-pair-tuple": [("a.css", "print")], "list-items-view": [good.items()]}[how]
+        if True:
+            try:
+                HTMLDependency("x", "1.0", **{f: val})
+                viols.append((f"validation:{kind}:{f}:{how}", f"non-dict item accepted at construction: {how}", {}))
+            except Exception:
+                pass
     elif kind == "missing-key":
         f, k, how = case[1], case[2], case[3]
         bad = {kk: vv for kk, vv in ITEM[f].items() if kk != k}
@@ -266,6 +324,10 @@ def plan(tier):
              note=f"one name, every sequence of <= 2 (quick) / <= 3 versions over {len(VERS2)} multi-component versions"),
         dict(kind="space", name="name-identity", fn=fn_names, space=Seq(Const(NAMES2), 1, 3),
              note="every sequence of <= 3 names that differ only by letter case / case folding / trailing space"),
+        dict(kind="space", name="equal-and-repeated-dependencies", fn=fn_equal_dups,
+             space=Prod(Seq(Const([0, 1, 2, 3]), 1, 4), Const(["flat", "nested", "mixed", "inline", "void"])),
+             note="sequences of <= 4 over two pairs of equal-but-distinct dependency objects (repeats = the same object "
+                  "again) x 5 placements: dedup=False keeps every occurrence in order"),
         dict(kind="space", name="constructor-validation", fn=fn_validation, space=Const(validation_cases()),
              note="equal single/list forms and every malformed definition named in the statement"),
     ]
